@@ -69,6 +69,8 @@ type Ctx struct {
 	byPath     map[string]*packages.Package
 	prog       *ssa.Program
 	ssaPkgs    map[string]*ssa.Package
+	cg         *CG
+	writerSet  map[*ssa.Function]bool
 
 	rules   []*RuleInfo
 	ruleIx  map[string]*RuleInfo
